@@ -204,6 +204,9 @@ func checkC10(tier, replay string) int {
 					ctx.Violation("C10:thread-not-covered:"+t.Phase, fmt.Sprintf("thread-sync load returned nil but thread %d (phase %s, /proc before load: %s, born after: %v) is not filtered: probe errno %d, Seccomp %d, filters %d; phases %v flags %d", t.Tid, t.Phase, t.PhaseSeen, t.BornAfter, t.ProbeErrno, t.Seccomp, t.Filters, sc.Phases, sc.Flags), sc)
 				}
 			} else if !t.BornAfter && !(sc.Divergent && t.Tid == rep.Threads[0].Tid) {
+				if t.NNP != t.NNPBefore && !sc.OuterENOSYS {
+					ctx.Violation("C10:other-thread-touched:nnp", fmt.Sprintf("load without thread-sync changed the no_new_privs bit of another thread (%d, phase %s): %d -> %d", t.Tid, t.Phase, t.NNPBefore, t.NNP), sc)
+				}
 				if t.ProbeErrno != 0 || t.Seccomp != 0 || t.Filters != 0 {
 					ctx.Violation("C10:other-thread-touched:"+t.Phase, fmt.Sprintf("load without thread-sync changed thread %d (phase %s): probe errno %d, Seccomp %d, filters %d", t.Tid, t.Phase, t.ProbeErrno, t.Seccomp, t.Filters), sc)
 				}
